@@ -165,8 +165,13 @@ def run(tier):
             thr = float(rng.choice([0.3, 0.65, 1.0, 2.0, 3.5]))
             if do_dim:
                 try:
-                    a = _enc_dim(matid.geometry.get_dimensionality(sysm.copy(), thr, radii=p, return_clusters=True))
-                    b = _enc_dim(matid.geometry.get_dimensionality(sysm.copy(), thr, radii=ref_radii.copy(), return_clusters=True))
+                    if k % 2:
+                        # the documented signature (system, cluster_threshold, dist_matrix_radii_mic_1x, return_clusters, radii), by position
+                        a = _enc_dim(matid.geometry.get_dimensionality(sysm.copy(), thr, None, True, p))
+                        b = _enc_dim(matid.geometry.get_dimensionality(sysm.copy(), thr, None, True, ref_radii.copy()))
+                    else:
+                        a = _enc_dim(matid.geometry.get_dimensionality(sysm.copy(), thr, radii=p, return_clusters=True))
+                        b = _enc_dim(matid.geometry.get_dimensionality(sysm.copy(), thr, radii=ref_radii.copy(), return_clusters=True))
                 except Exception as e:
                     a, b = {"dim": -9, "clusters": []}, {"dim": -8, "clusters": [], "raised": "%s: %s" % (type(e).__name__, str(e)[:120])}
                 add({"ev": "equiv", "what": "dimensionality", "preset": p, "zs": [int(z) for z in zs],
